@@ -770,6 +770,12 @@ fn run_case(vc: &VCase, stats: &mut Stats, genr: Option<(&mut Prng, usize)>, tot
     let msgs = state_check_messages(&w.v);
     for msg in msgs {
         if msg.contains("has no power claim") { continue; } // miners created without power: unrelated
+        if msg.contains("stored an allowance for self") {
+            // IncreaseAllowance with operator = caller stores a self-allowance, which frc46_token's own
+            // invariant checker rejects; harmless for C09 (transfer_from refuses operator = owner): counted
+            *totals.entry("state_check_self_allowance_messages".to_string()).or_insert(0) += 1;
+            continue;
+        }
         fails.push(json!({"class": "repo-state-invariant", "step": n, "what": [msg], "case": VCase { ops: done.clone() }}));
     }
     for (k, v) in [("allocations_created", mon.created), ("allocations_claimed", mon.claimed), ("allocations_refunded", mon.refunded),
